@@ -34,7 +34,6 @@ import (
 	"github.com/mimiro-io/datahub/internal/conf"
 	"github.com/mimiro-io/datahub/internal/jobs/source"
 	"github.com/mimiro-io/datahub/internal/server"
-	"github.com/mimiro-io/datahub/internal/verifhook"
 )
 
 // The Scheduler deals with reading and writing jobs and making sure they get added to the
@@ -192,8 +191,7 @@ func (s *Scheduler) AddJob(jobConfig *JobConfiguration) error {
 	g, _ := errgroup.WithContext(context.Background())
 	g.Go(func() error {
 		// make sure we clear up before adding
-		verifhook.Access(s.Runner, "runner.scheduledJobs", true)
-		clearCrontab(s.Runner.scheduledJobs, jobConfig.ID)
+		s.Runner.clearSchedule(jobConfig.ID)
 		s.Runner.eventBus.UnsubscribeToDataset(jobConfig.ID)
 		for _, job := range triggeredJobs {
 			if !jobConfig.Paused { // only add the job if it is not paused
@@ -306,8 +304,7 @@ func (s *Scheduler) Parse(rawJSON []byte) (*JobConfiguration, error) {
 // GetScheduleEntries returns a cron list of all scheduled entries currently scheduled.
 // Paused jobs are not part of this list
 func (s *Scheduler) GetScheduleEntries() ScheduleEntries {
-	verifhook.Access(s.Runner, "runner.scheduledJobs", false)
-	jobs := s.Runner.scheduledJobs
+	jobs := s.Runner.scheduledEntries()
 	lookup := map[int]string{}
 	for k, v := range jobs {
 		for id := range v {
